@@ -9,6 +9,16 @@ for f in [a for a in sys.argv[1:] if not a.startswith("--")]:
             continue
         tag, _, rest = l.partition(" ")
         rows[tag] = rest
+# rows of the table as it stands: a seed that was not re-run keeps its recorded result
+old = {}
+try:
+    d0 = open("/verif/DESIGN.md").read()
+    for l in d0[d0.index("<!-- SEEDTABLE BEGIN -->"):d0.index("<!-- SEEDTABLE END -->")].split("\n"):
+        m = re.match(r"\| (C\d+-\d+) \| .* \| (V|U|–) \| (.*) \|$", l)
+        if m:
+            old[m.group(1)] = (m.group(2), m.group(3))
+except Exception:
+    pass
 out = ["| seed | what the change needs to manifest | result | reported obligation(s) / reason |", "|---|---|---|---|"]
 tot = {"V": 0, "U": 0, "–": 0}
 for tag in sorted([t for t in os.listdir("/verif/seeded") if re.match(r"C\d+-\d+$", t)], key=lambda t: (t.split("-")[0], int(t.split("-")[1]))):
@@ -25,10 +35,12 @@ for tag in sorted([t for t in os.listdir("/verif/seeded") if re.match(r"C\d+-\d+
         res = "U"; why = "unit `%s`: %s" % (und[0][0], und[0][1][:110])
     elif rest:
         res = "–"; why = "outside every contract (see §9 / MANIFEST level_note)"
+    elif tag in old:
+        res, why = old[tag]
     else:
         res = "?"; why = "not run"
     tot[res] = tot.get(res, 0) + 1
-    out.append("| %s | %s | %s | %s |" % (tag, meta["needs_to_manifest"].replace("|", "\\|"), res, why.replace("|", "\\|")))
+    out.append("| %s | %s | %s | %s |" % (tag, meta["needs_to_manifest"].replace("|", "\\|"), res, why if tag in old and tag not in rows else why.replace("|", "\\|")))
 out.append("")
 out.append("Totals: %d reported as VIOLATION, %d UNDECIDED (extraction anchor / struct shape / tool limit - never an alarm), %d not noticed." % (tot["V"], tot["U"], tot["–"]))
 text = "\n".join(out)
